@@ -44,7 +44,27 @@ for d in sorted(glob.glob(f'{V}/seeded/*/')):
     n += 1; ncaught += bool(allc)
     sig = (tgt.get('signature') or [''])[0].replace('signature: ', '')[:70]
     out.append(f"| {sid} | {m.get('needs', '(see agent_notes.md)')} | {'yes' if m.get('confirmed') else 'NO'} | {'exit ' + str(tgt.get('exit'))} `{sig}` | {', '.join(allc) or '-'} |")
-out.append(f"\n{n} seeded changes (rounds 1-4: 40 + 31 + 31 + 26), {ncaught} reported by at least one check; the exceptions are explained in 10.14 (a 32-bit hash collision).\n")
+rounds = {}
+for d in glob.glob(f'{V}/seeded/*/'):
+    sid = os.path.basename(d.rstrip('/'))
+    mm = re.match(r'C\d\d-(r\d)-', sid)
+    rounds[mm.group(1) if mm else 'r1'] = rounds.get(mm.group(1) if mm else 'r1', 0) + 1
+out.append(f"\n{n} seeded changes (per round: {', '.join(k + ' ' + str(rounds[k]) for k in sorted(rounds))}), {ncaught} reported by at least one check; the exceptions are explained in section 10 (10.14: a 32-bit hash collision; 10.19 for round 5).\n")
+
+out.append("### 12.3 Property-preserving changes (`benign/<id>/`, run with `tools/benigntest.py`): must stay silent\n")
+out.append("Written by sub-agents from the 20 property texts alone; each builds, passes the repository's suite and is claimed (with an argument in `notes.md`) to keep every property. All 20 quick checks, regression tier included, were run against each.\n")
+out.append("| change | repo tests | base | checks run | alarms |")
+out.append("|---|---|---|---|---|")
+nb = nal = 0
+for d in sorted(glob.glob(f'{V}/benign/*/')):
+    mp = d + 'meta.json'
+    if not os.path.exists(mp): continue
+    m = json.load(open(mp))
+    nb += 1; nal += bool(m.get('alarms'))
+    t = m.get('tests', {})
+    verdict = m.get('verdict', '')
+    out.append(f"| {m['id']} | {t.get('passed')}/{t.get('failed')} | {m.get('base_commit', '')[:7]} | {len(m.get('checks', {}))} | {', '.join(m.get('alarms', [])) or 'none'}{' - ' + verdict if verdict else ''} |")
+out.append(f"\n{nb} property-preserving changes, {nal} with an alarm. What each change does is in `benign/<id>/notes.md` (two changes per file).\n")
 
 text = '\n'.join(out)
 p = f'{V}/DESIGN.md'
